@@ -566,6 +566,11 @@ func genCore(prop string, seed uint64, tier string, g genCfg) *Scenario {
 				}
 				if r.Intn(1000) < g.pWaitUnl {
 					o.TFlag |= tfWaitUnl
+					// one in three of these asks on a key nobody else ever touches (decided by values
+					// already drawn): it waits on a free key, times out, and the key must be gone afterwards
+					if (int(o.Timeout)+int(o.Expried)+o.Lid)%3 == 0 && o.Timeout > 0 && o.TFlag&(tfMinute) == 0 {
+						o.Key = 150 + len(cs.Ops)%40 + 40*len(body.Clients)
+					}
 				}
 				if r.Intn(1000) < g.pAck {
 					o.TFlag |= tfAck
@@ -977,6 +982,146 @@ func genFullCount(prop string, seed uint64, tier string) *Scenario {
 	lock(nl + 1)
 	for l := 0; l < nl+3; l++ {
 		ops = append(ops, OpSpec{Cmd: 2, Key: 0, Lid: l, Rcount: 0})
+	}
+	body.Clients = []ClientSpec{{Kind: "mem", StartMs: 50, Ops: ops}}
+	raw, _ := json.Marshal(body)
+	return &Scenario{Knobs: genKnobs(r), Sched: genSched(r, seed), Body: raw, MaxSimS: 3000}
+}
+
+// genMsHandover: a request queues with a millisecond timeout of 3000a+b ms (it waits b ms in the
+// millisecond wheel and is then handed to the second wheel) and is granted or cancelled at a chosen
+// moment around the hand-over; afterwards nothing more may happen to it until its hold is released
+// (C05: never after a grant).
+func genMsHandover(prop string, seed uint64, tier string) *Scenario {
+	r := ssched.Sub(seed, "gen")
+	body := &CoreBody{NKeys: 3, NLids: 6, Profile: "ms-handover", Dbs: []int{0}}
+	var ops []OpSpec
+	t := 0
+	for key := 0; key < 3; key++ {
+		a, b := 1+r.Intn(2), 150+r.Intn(2700)
+		T := 3000*a + b
+		ops = append(ops, OpSpec{Cmd: 1, Key: key, Lid: 0, Count: 0, Expried: 900, Wait: true, DelayMs: 5})
+		ops = append(ops, OpSpec{Cmd: 1, Key: key, Lid: 1, Count: 0, Timeout: uint16(T), TFlag: tfMs, Expried: 30, DelayMs: 5})
+		at := []int{b / 2, b - 20 - r.Intn(60), b + 20 + r.Intn(200), 3000 + r.Intn(b)}[r.Intn(4)]
+		if at < 10 {
+			at = 10
+		}
+		if r.Intn(3) == 0 {
+			ops = append(ops, OpSpec{Cmd: 2, Key: key, Lid: 1, Flag: protocol.UNLOCK_FLAG_CANCEL_WAIT_LOCK_WHEN_UNLOCKED, DelayMs: at, Wait: true})
+		} else {
+			ops = append(ops, OpSpec{Cmd: 2, Key: key, Lid: 0, DelayMs: at, Wait: true})
+		}
+		t += at
+		_ = T
+	}
+	// well past every deadline, then release what is held
+	ops = append(ops, OpSpec{Cmd: 2, Key: 0, Lid: 1, DelayMs: 12000, Wait: true})
+	for key := 0; key < 3; key++ {
+		ops = append(ops, OpSpec{Cmd: 2, Key: key, Lid: 1, DelayMs: 5, Wait: true})
+		ops = append(ops, OpSpec{Cmd: 2, Key: key, Lid: 0, DelayMs: 5, Wait: true})
+	}
+	body.Clients = []ClientSpec{{Kind: "mem", StartMs: 50, Ops: ops}}
+	raw, _ := json.Marshal(body)
+	return &Scenario{Knobs: genKnobs(r), Sched: genSched(r, seed), Body: raw, MaxSimS: 3000}
+}
+
+// genLongWaiters: behind an exclusive holder 3-12 requests queue within one second with the same long
+// timeout (45-70 s: they move to the long-term timeout table of their deadline second); shortly before
+// the deadline the holder unlocks (the first of them is granted) or one of them is cancelled; the
+// others must still be answered TIMEOUT within their window (C05).
+func genLongWaiters(prop string, seed uint64, tier string) *Scenario {
+	r := ssched.Sub(seed, "gen")
+	k := 3 + r.Intn(10)
+	T := 45 + r.Intn(26)
+	body := &CoreBody{NKeys: 2, NLids: k + 3, Profile: "long-waiters", Dbs: []int{0}}
+	var ops []OpSpec
+	ops = append(ops, OpSpec{Cmd: 1, Key: 0, Lid: 0, Count: 0, Expried: 900, Wait: true})
+	for i := 1; i <= k; i++ {
+		ops = append(ops, OpSpec{Cmd: 1, Key: 0, Lid: i, Count: 0, Timeout: uint16(T), Expried: 5, DelayMs: r.Intn(60)})
+	}
+	at := (T-1-r.Intn(4))*1000 - r.Intn(900) // 1-5 s before the deadline, after the move at about +44 s
+	if at < 44500 {
+		at = 44500 + r.Intn(400)
+	}
+	switch r.Intn(3) {
+	case 0:
+		ops = append(ops, OpSpec{Cmd: 2, Key: 0, Lid: 0, DelayMs: at, Wait: true})
+	case 1:
+		ops = append(ops, OpSpec{Cmd: 2, Key: 0, Lid: 1 + r.Intn(k), Flag: protocol.UNLOCK_FLAG_CANCEL_WAIT_LOCK_WHEN_UNLOCKED, DelayMs: at, Wait: true})
+	default:
+		ops = append(ops, OpSpec{Cmd: 2, Key: 0, Lid: 1 + r.Intn(k), Flag: protocol.UNLOCK_FLAG_CANCEL_WAIT_LOCK_WHEN_UNLOCKED, DelayMs: at, Wait: true})
+		ops = append(ops, OpSpec{Cmd: 2, Key: 0, Lid: 0, DelayMs: 100 + r.Intn(800), Wait: true})
+	}
+	ops = append(ops, OpSpec{Cmd: 2, Key: 0, Lid: 0, DelayMs: 12000, Wait: true}) // release what is still held
+	ops = append(ops, OpSpec{Cmd: 2, Key: 0, Lid: 1, DelayMs: 10, Wait: true})
+	body.Clients = []ClientSpec{{Kind: "mem", StartMs: 50, Ops: ops}}
+	raw, _ := json.Marshal(body)
+	return &Scenario{Knobs: genKnobs(r), Sched: genSched(r, seed), Body: raw, MaxSimS: 3000}
+}
+
+// genLongTable: 10-60 keys each taken once with the persist-immediately flag and an expiry of 8-30 s
+// (such holds go straight to the long-term expiry table of their shard and second), all within a
+// second or two; then some of the holds are updated to another expiry of the same small set, so that
+// a hold moves between table entries that other holds occupy. Nothing is unlocked: every hold must
+// end by expiry within its window (C06).
+func genLongTable(prop string, seed uint64, tier string) *Scenario {
+	r := ssched.Sub(seed, "gen")
+	n := 10 + r.Intn(50)
+	set := []uint16{8, 12, 20, 30}
+	if r.Intn(3) == 0 {
+		set = []uint16{6, 7, 9}
+	}
+	body := &CoreBody{NKeys: n, NLids: 1, Profile: "long-table", Dbs: []int{0}}
+	var ops []OpSpec
+	ex := make([]uint16, n)
+	for i := 0; i < n; i++ {
+		ex[i] = set[r.Intn(len(set))]
+		ops = append(ops, OpSpec{Cmd: 1, Key: i, Lid: 0, Count: 0, Expried: ex[i], EFlag: efAof0, DelayMs: r.Intn(3)})
+	}
+	nu := 3 + r.Intn(n/2+1)
+	for j := 0; j < nu; j++ {
+		i := r.Intn(n)
+		e2 := set[r.Intn(len(set))]
+		o := OpSpec{Cmd: 1, Key: i, Lid: 0, Flag: protocol.LOCK_FLAG_UPDATE_WHEN_LOCKED, Count: 0, Expried: e2, EFlag: efAof0, DelayMs: r.Intn(4)}
+		if r.Intn(4) == 0 {
+			o.DelayMs = 200 + r.Intn(1500)
+		}
+		ops = append(ops, o)
+	}
+	body.Clients = []ClientSpec{{Kind: "mem", StartMs: 50, Ops: ops}}
+	raw, _ := json.Marshal(body)
+	k := genKnobs(r)
+	return &Scenario{Knobs: k, Sched: genSched(r, seed), Body: raw, MaxSimS: 3000}
+}
+
+// genQueueMigrate: one exclusive key; behind its holder 150-300 plain requests queue one after the
+// other (the queue spills from its inline slots into the ring), then one or two requests with the
+// priority flag arrive (the queue is rebuilt as a priority ring), then the key is released again
+// and again: the priority requests first, then the plain ones in arrival order (C04).
+func genQueueMigrate(prop string, seed uint64, tier string) *Scenario {
+	r := ssched.Sub(seed, "gen")
+	n := 150 + r.Intn(150)
+	if r.Intn(4) == 0 {
+		n = 100 + r.Intn(60) // around the inline capacity
+	}
+	body := &CoreBody{NKeys: 1, NLids: n + 8, Profile: "queue-migrate", Dbs: []int{0}}
+	var ops []OpSpec
+	ops = append(ops, OpSpec{Cmd: 1, Key: 0, Lid: 0, Count: 0, Expried: 600, Wait: true})
+	for i := 1; i <= n; i++ {
+		ops = append(ops, OpSpec{Cmd: 1, Key: 0, Lid: i, Count: 0, Timeout: 300, Expried: 600, DelayMs: r.Intn(2)})
+	}
+	np := 1 + r.Intn(2)
+	for j := 0; j < np; j++ {
+		ops = append(ops, OpSpec{Cmd: 1, Key: 0, Lid: n + 1 + j, Count: 0, Timeout: 300, Expried: 600, TFlag: tfPriority, Rcount: uint8(1 + r.Intn(3)), DelayMs: 1 + r.Intn(3)})
+	}
+	// a few more plain ones behind the priority ring
+	for j := 0; j < 3; j++ {
+		ops = append(ops, OpSpec{Cmd: 1, Key: 0, Lid: n + 4 + j, Count: 0, Timeout: 300, Expried: 600, DelayMs: r.Intn(2)})
+	}
+	// release: whoever holds is unlocked with the unlock-first flag by a LockId that holds nothing
+	total := 1 + n + np + 3
+	for i := 0; i < total; i++ {
+		ops = append(ops, OpSpec{Cmd: 2, Key: 0, Lid: n + 7, Flag: protocol.UNLOCK_FLAG_UNLOCK_FIRST_LOCK_WHEN_UNLOCKED, DelayMs: 1 + r.Intn(3), Wait: true})
 	}
 	body.Clients = []ClientSpec{{Kind: "mem", StartMs: 50, Ops: ops}}
 	raw, _ := json.Marshal(body)
